@@ -38,11 +38,14 @@ def build_combo(c, seed_):
     if c["irf"] != "none":
         irf = {"type": "gaussian", "center": "irf.center", "width": "irf.width"}
         par["irf"] = [["center", 0.4], ["width", 0.2]]
-        if c["irf"] == "dispersed":
+        if c["irf"] in ("dispersed", "mixed"):
             irf = {"type": "spectral-gaussian", "center": "irf.center", "width": "irf.width", "dispersion_center": "irf.dc",
                    "center_dispersion_coefficients": ["irf.d1"]}
             par["irf"] += [["dc", 620.0, {"vary": False}], ["d1", 0.05]]
         md["irf"] = {"irf1": irf}
+        if c["irf"] == "mixed":
+            # the LAST dataset of the (linked) group has an index-independent matrix, the earlier ones an index-dependent one
+            md["irf"]["irf2"] = {"type": "gaussian", "center": "irf.center", "width": "irf.width"}
     if c["baseline"] == "yes":
         md["megacomplex"]["mbase"] = {"type": "baseline", "dimension": "time"}
         mcs.append("mbase")
@@ -58,7 +61,7 @@ def build_combo(c, seed_):
     for i in range(nds):
         dm = {"megacomplex": list(mcs)}
         if c["irf"] != "none":
-            dm["irf"] = "irf1"
+            dm["irf"] = "irf2" if c["irf"] == "mixed" and i == nds - 1 else "irf1"
         if c["decay"] == "general":
             dm["initial_concentration"] = "j"
         if c["scale"] == "yes":
@@ -214,9 +217,12 @@ def run(chk, tier, rng):
     chk.extra["builtin_combinations_total"] = len(combos)
     n = 12 if tier == "quick" else len(combos)
     pick = combos if n >= len(combos) else rng.sample(combos, n)
-    # always: a full model whose model matrix is index dependent (dispersed IRF) and one that is not
+    # always: a full model whose model matrix is index dependent (dispersed IRF) and one that is not; linked groups that mix index-dependent
+    # and index-independent datasets
     fixed = [{"decay": "sequential", "irf": "dispersed", "glob": "spectral", "baseline": "no", "osc": "no", "artifact": "no", "nds": "1", "scale": "no"},
-             {"decay": "parallel", "irf": "gaussian", "glob": "spectral", "baseline": "no", "osc": "no", "artifact": "no", "nds": "1", "scale": "yes"}]
+             {"decay": "parallel", "irf": "gaussian", "glob": "spectral", "baseline": "no", "osc": "no", "artifact": "no", "nds": "1", "scale": "yes"},
+             {"decay": "parallel", "irf": "mixed", "glob": "clp", "baseline": "no", "osc": "no", "artifact": "no", "nds": "2", "scale": "no"},
+             {"decay": "sequential", "irf": "mixed", "glob": "clp", "baseline": "yes", "osc": "no", "artifact": "no", "nds": "3", "scale": "yes"}]
     for i, c in enumerate(fixed + pick):
         check_combo(chk, c, 1000 + i, recover=False)
     # recovery from a 10 % perturbation is asserted for combinations whose objective has a single basin there: a 10 % change of an
